@@ -325,6 +325,22 @@ type World struct {
 	Bundles []*Bundle
 	Skipped int // operations that had nothing to act on
 	seq     int
+
+	shortMu   sync.Mutex
+	shortRead *ShortRead
+}
+
+// SetShortRead installs (or with nil removes) a broken-stream plan on the purge process' stores
+func (w *World) SetShortRead(s *ShortRead) {
+	w.shortMu.Lock()
+	w.shortRead = s
+	w.shortMu.Unlock()
+}
+
+func (w *World) short() *ShortRead {
+	w.shortMu.Lock()
+	defer w.shortMu.Unlock()
+	return w.shortRead
 }
 
 // RepoName gives the name of repository r of context c
@@ -354,7 +370,7 @@ func NewWorld(s Shape) (*World, error) {
 			v.Attach(w.Proc)
 		}
 		p.Proc = w.Proc
-		p.Stores = context2.NewStores(deadStore{p.Wal}, deadStore{p.ReadLog}, deadStore{p.Blob}, deadStore{p.Meta}, deadStore{p.VMeta})
+		p.Stores = context2.NewStores(deadStore{p.Wal, w}, deadStore{p.ReadLog, w}, deadStore{p.Blob, w}, deadStore{p.Meta, w}, deadStore{p.VMeta, w})
 		w.Purge = append(w.Purge, p)
 		for r := 0; r < s.Repos[c]; r++ {
 			if err := hx.CreateRepo(u.Stores, RepoName(c, r)); err != nil {
